@@ -13,6 +13,7 @@ EGS = {
     "G4": ((0x3333, 7, 3), 5, ("2001:db8::100", 41004, 0, 0), hdr.L4Protocols.TCP, "l4"),
 }
 SRVS = ["a1", "a2", "a3"]
+BASE = ["G1", "G2", "G3", "G4"]      # the eventgroups of the generated histories (scale scenarios add more)
 VARIANTS = {"R": dict(subTTL=6, refresh=2), "S": dict(subTTL=12, refresh=4), "F": dict(subTTL=FOREVER, refresh=0)}
 
 
@@ -65,7 +66,7 @@ def gen(rng, n):
     from .anngen import positions
     alive, req, sched = False, set(), []
     hot_srv = rng.choice(SRVS)
-    hot = [(g, hot_srv) for g in rng.sample(list(EGS), 2)] + [(rng.choice(list(EGS)), rng.choice(SRVS))]
+    hot = [(g, hot_srv) for g in rng.sample(BASE, 2)] + [(rng.choice(BASE), rng.choice(SRVS))]
 
     def toggle(t, j, k):
         if k in req:
@@ -85,8 +86,34 @@ def gen(rng, n):
             for _ in range(rng.choice([2, 2, 3])):
                 toggle(t, j, k)
         else:
-            toggle(t, j, rng.choice(hot) if rng.random() < 0.75 else (rng.choice(list(EGS)), rng.choice(SRVS)))
+            toggle(t, j, rng.choice(hot) if rng.random() < 0.75 else (rng.choice(BASE), rng.choice(SRVS)))
     return sched
+
+
+def many_egs(n):
+    """further eventgroups X0 .. X<n-1> of one service (scale scenarios: more entries than one message should carry)"""
+    names = []
+    for i in range(n):
+        g = "X%d" % i
+        EGS.setdefault(g, ((0x1003, 2, 2), 0x100 + i, ("192.0.2.100", 41001), hdr.L4Protocols.UDP, "l1"))
+        names.append(g)
+    return names
+
+
+def scale_traces():
+    """many eventgroups requested from one server: before start, while running, across refreshes and a stop"""
+    out = []
+    for n, var in ((36, "R"), (70, "F"), (33, "S")):
+        gs = many_egs(n)
+        half = n // 2
+        sched = [{"t": 0, "j": 0, "op": "subscribe", "g": g, "srv": "a1"} for g in gs[:half]]
+        sched.append({"t": 1, "j": 0, "op": "sub_start"})
+        sched += [{"t": 2, "j": 0, "op": "subscribe", "g": g, "srv": "a1"} for g in gs[half:]]
+        sched.append({"t": 2 + 3 * max(VARIANTS[var]["refresh"], 1), "j": 0, "op": "sub_stop"})
+        ev, _ = run_schedule(sched, var)
+        out.append({"cfg": mon_cfg(var), "ev": monpass.add_adv(ev), "sched": sched, "var": var,
+                    "diag": {"variant": var, "family": "%d eventgroups for one server" % n}})
+    return out
 
 
 def mon_cfg(var):
@@ -111,7 +138,7 @@ def payload(tr):
 
 def spec_consts(var):
     v = VARIANTS[var]
-    egs = "[" + ", ".join('%s |-> [ep |-> "%s"]' % (g, x[4]) for g, x in EGS.items()) + "]"
+    egs = "[" + ", ".join('%s |-> [ep |-> "%s"]' % (g, EGS[g][4]) for g in BASE) + "]"
     return {"Match": "<<>>", "Sw": "AllOff",
             "Cfg": "[maxId |-> 65535, subTTL |-> %d, refresh |-> %d, egs |-> %s] @@ CfgDefault" % (v["subTTL"], v["refresh"], egs)}
 
@@ -122,7 +149,7 @@ def check(ctx):
     m1.holds("infinite TTL, no refresh", "C14_quick.cfg", {"C14_A": "C14_B"})
     m1.caught("SwSubOrder", "C14_quick.cfg")
     traces = traces_for(ctx.seed, ctx.pick(900, 9000), ctx.pick(10, 16))
-    bad, ms = judge(ctx, "Mon_C14", traces, "subscriber histories", payload)
+    bad, ms = judge(ctx, "Mon_C14", traces + scale_traces(), "subscriber histories", payload)
     from .common import spec_to_code
     sim = spec_to_code(ctx, {"Inputs": "C14_Inputs", "Match": "<<>>", "Cfg": "[C14_A EXCEPT !.maxId = 65535]", "Sw": "AllOff",
                              "MaxEv": 7, "MaxIdle": 3, "MaxPerPoll": 2},
@@ -145,6 +172,8 @@ def check(ctx):
 
 def replay(ctx, rep):
     p = rep["payload"]
+    if any(i.get("g", "").startswith("X") for i in p["sched"]):
+        many_egs(100)
     ev, _ = run_schedule(p["sched"], p["var"])
     tr = {"cfg": mon_cfg(p["var"]), "ev": monpass.add_adv(ev), "sched": p["sched"], "var": p["var"]}
     bad, _ = judge(ctx, "Mon_C14", [tr], "replay", payload)
